@@ -241,7 +241,7 @@ func C06(p *core.Program, r *core.Report) {
 	// the spray block added by binary spray is type 192, the block appended in forward is the previous-node block
 	fwd := p.Func(routingPkg, "Core", "forward")
 	for _, c := range core.CallsTo(fwd, bp7+".Bundle.AddExtensionBlock") {
-		ok := core.DependsOn(core.CallArgs(c)[0], func(v ssa.Value) bool {
+		ok := core.DependsOn(core.Arg(c, 0), func(v ssa.Value) bool {
 			cc, ok := v.(*ssa.Call)
 			return ok && core.NameIs(core.CalleeName(cc), bp7+".NewPreviousNodeBlock")
 		})
@@ -385,7 +385,7 @@ func C06(p *core.Program, r *core.Report) {
 			for b := range reach {
 				for _, in := range b.Instrs {
 					if cc, ok := in.(ssa.CallInstruction); ok && core.NameIs(core.CalleeName(cc), routingPkg+".Core.bundleDeletion") {
-						if k, _ := core.ConstInt(core.CallArgs(cc)[1]); k == dc.reason {
+						if k, _ := core.ConstInt(core.Arg(cc, 1)); k == dc.reason {
 							okDel = true
 						}
 					}
@@ -409,7 +409,7 @@ func C06(p *core.Program, r *core.Report) {
 		if !ok || !core.NameIs(core.CalleeName(c), bp7+".Bundle.ExtensionBlock") {
 			return false
 		}
-		k, _ := core.ConstInt(core.CallArgs(c)[0])
+		k, _ := core.ConstInt(core.Arg(c, 0))
 		return k == constVal(p, bp7, "ExtBlockTypeHopCountBlock")
 	})
 	r.Check(okLT && okAge && okHop, "drop-before-send/"+fname(fwd)+"/all-tests-on-every-path", "no path reaches the sends without the hop-count lookup, the lifetime test and the age update", p.Pos(goInstr.Pos()), "", fmt.Sprintf("hop lookup %v, lifetime %v, age %v", okHop, okLT, okAge))
@@ -465,7 +465,7 @@ func C06(p *core.Program, r *core.Report) {
 		if !ok || !core.NameIs(core.CalleeName(c), bp7+".Bundle.ExtensionBlock") {
 			return false
 		}
-		k, _ := core.ConstInt(core.CallArgs(c)[0])
+		k, _ := core.ConstInt(core.Arg(c, 0))
 		return k == hopType
 	}
 	skipNoBlock := func(from *ssa.BasicBlock, si int) bool {
@@ -528,7 +528,7 @@ func C06(p *core.Program, r *core.Report) {
 	nPN := 0
 	for _, c := range core.CallsTo(fwd, bp7+".NewPreviousNodeBlock") {
 		nPN++
-		r.Check(pathEndsWith(core.CallArgs(c)[0], "NodeId"), fmt.Sprintf("previous-node/%s/names-this-node#%d", fname(fwd), nPN), "the previous-node block of a forwarded bundle names this node", p.Pos(c.Pos()), "", "argument is not c.NodeId")
+		r.Check(pathEndsWith(core.Arg(c, 0), "NodeId"), fmt.Sprintf("previous-node/%s/names-this-node#%d", fname(fwd), nPN), "the previous-node block of a forwarded bundle names this node", p.Pos(c.Pos()), "", "argument is not c.NodeId")
 	}
 	r.Min("previous-node constructions in forward", 2)
 	r.Count("previous-node constructions in forward", nPN)
